@@ -1213,13 +1213,30 @@ def gate_complete(ctx, res):
                 rhs = x.ch[-1]
             if rhs is not None and len(nvars(rhs)) == 2:
                 roots.setdefault(id(rhs), rhs)
-        for root in roots.values():
+        # polarity: `if (!gate) return ...;` guards the call from the other
+        # side - the condition must then not be *true* when a list is
+        # non-empty
+        inverted = set()
+        for x in fn.walk():
+            if x.kind == "IfStmt" and x.ch and id(x.ch[0]) in roots:
+                def has_call(n):
+                    return n is not None and any(
+                        c.kind == "CallExpr" and callee(c) == "call_notifiers"
+                        for c in n.walk())
+                then = x.ch[1] if len(x.ch) > 1 else None
+                other = x.ch[2] if len(x.ch) > 2 else None
+                if not has_call(then) and (has_call(other) or any(
+                        c.kind in ("ReturnStmt", "GotoStmt")
+                        for c in then.walk())):
+                    inverted.add(id(x.ch[0]))
+        for rid, root in roots.items():
             vs = nvars(root)
             if len(vs) != 2:
                 continue
             n_gates += 1
             key = f"{fname}:{root.line}"
             bad = None
+            closes = True if rid in inverted else False
             for a in STATES:
                 for b in STATES:
                     if "some" not in (a, b):
@@ -1229,8 +1246,9 @@ def gate_complete(ctx, res):
                     except Crash as c:
                         bad = (a, b, f"reads the size of `{c}` which is NULL")
                         break
-                    if r is False:
-                        bad = (a, b, "is false")
+                    if r is closes:
+                        bad = (a, b, "is true (and the function leaves "
+                               "before the call)" if closes else "is false")
                         break
                 if bad:
                     break
